@@ -52,6 +52,8 @@ def mutants(prog):
         ("isotropic scales_: squashing tied to requires_grad", "deepali.spatial.linear", "IsotropicScaling.scales_", "if self.has_parameters():", "if self.data().requires_grad:", "T8.accessors"),
         ("quaternion log: asin of the vector norm", K, "quaternion_exp_to_log", "torch.acos(torch.clamp(quaternion_scalar, min=-1.0, max=1.0))", "torch.asin(torch.clamp(norm_q, max=1.0))", "T7.quat-log-exp"),
         ("quaternion exp: scalar part sine", K, "quaternion_log_to_exp", "quaternion_scalar: torch.Tensor = torch.cos(norm_q)", "quaternion_scalar: torch.Tensor = torch.sin(norm_q)", "T7.quat-log-exp"),
+        ("angle-axis: first-order branch of the inverse rotation", K, "angle_axis_to_rotation_matrix", "torch.cat([k_one, -rz, ry, rz, k_one, -rx, -ry, rx, k_one], dim=1)", "torch.cat([k_one, rz, -ry, -rz, k_one, rx, ry, -rx, k_one], dim=1)", "T7.angle-axis"),
+        ("angle-axis: sense of rotation", K, "angle_axis_to_rotation_matrix", "r10 = wz * sin_theta + wx * wy * (k_one - cos_theta)", "r10 = -wz * sin_theta + wx * wy * (k_one - cos_theta)", "T7.angle-axis"),
     ]
     for name, mod, fn, old, new, expect in specs:
         ov = source_sub(prog, mod, fn, old, new)
